@@ -23,8 +23,7 @@ RULE = ("search: for every problem of each plug-in's family (all clue layouts on
         "and 5x5 / 4x6 room boards, too large for the candidate enumeration: every grid admitted by the really posted "
         "program (z3, capped) is checked against rules_<p>, and grids constructed by the generator (checked against "
         "rules_<p>) must be admitted.  "
-        "Tier 1 tie (P), for every plug-in with a TIER1 attribute (sudoku, norinori, putteria, star_battle, aquarium, creek, akari, "
-        "building, doppelblock, nurimisaki, heyawake, gokigen, slitherlink, view, nurikabe): the program captured from the real solve_<p> (declarations, answer keys, constraints as a "
+        "Tier 1 tie (P), for every plug-in with a TIER1 attribute (@T1@): the program captured from the real solve_<p> (declarations, answer keys, constraints as a "
         "multiset) = the program of the Coq model solve_<p>_model, on every problem of tier1_problems (all tiny boards, "
         "random larger and non-square ones, malformed inputs that raise).")
 TRUSTED = [
@@ -34,11 +33,27 @@ TRUSTED = [
     "Core/Expr.v eval as the meaning of posted constraints",
 ]
 ASSUMPTIONS = [
-    "Tier 2 and search are bounded by the instance families listed in evidence (tiny boards); unbounded statements exist only for the Tier-1 modules (sudoku, norinori, putteria, star_battle, aquarium, creek, akari, building, doppelblock, nurimisaki, heyawake, gokigen, slitherlink, view, nurikabe)",
+    "Tier 2 and search are bounded by the instance families listed in evidence (tiny boards); unbounded statements exist only for the Tier-1 modules (@T1@)",
     "aquarium Tier 1: every tank (region) is orthogonally connected; creek / nurimisaki / heyawake / view Tier 1 compose with property C04 (Graph/Avc.v::post_avc is the model of graph.active_vertices_connected, tied to the Python by C04's own check), gokigen with C09 (Graph/Acyclic.v::post_acyclic), slitherlink with C06 (Graph/Cycle*.v::active_edges_single_cycle on a frame), nurikabe with C05 (Graph/Division.v::division_connected)",
     "Solver.solve derives (is_sat, decided cells) from the posted program as property C02 states; backends decide programs correctly (C01)",
     "well-formed problems: regions partition the board into orthogonally connected sets, clue values within the module's documented alphabet",
 ]
+
+def _tier1_names():
+    import glob, re as _re
+    out = []
+    for f in sorted(glob.glob(os.path.join(os.path.dirname(os.path.abspath(__file__)), "c11", "*.py"))):
+        if not os.path.basename(f).startswith("_") and _re.search(r"^TIER1\s*=", open(f).read(), flags=_re.M):
+            out.append(os.path.basename(f)[:-3])
+    # a module counts as Tier 1 when its full theorem C11_<p>_exact is stated in Props/C11.v (a model that is tied
+    # but whose theorem is partial does not)
+    props = open(os.path.join(vlib.THEORIES, "Props", "C11.v")).read()
+    return [n for n in out if _re.search(r"^Theorem C11_%s_exact\b" % n, props, flags=_re.M)]
+
+
+_T1 = ", ".join(_tier1_names())
+RULE = RULE.replace("@T1@", _T1)
+ASSUMPTIONS = [a.replace("@T1@", _T1) for a in ASSUMPTIONS]
 
 T2_TIMEOUT = 240
 # outside coq/theories: never part of the global make; git-ignored; a private repo copy gets its own directory
